@@ -84,9 +84,21 @@ ShowExpr(e) ==
 ShowList(es, i) == IF i > Len(es) THEN <<>>
                    ELSE ShowExpr(es[i]) \o (IF i < Len(es) THEN <<44>> ELSE <<>>) \o ShowList(es, i + 1)
 
-RECURSIVE ShowNums(_, _)
-ShowNums(ns, i) == IF i > Len(ns) THEN <<>>
-                   ELSE DigitsOf(ns[i]) \o (IF i < Len(ns) THEN <<44>> ELSE <<>>) \o ShowNums(ns, i + 1)
+(***************************************************************************)
+(* The text of a statement is produced as a sequence of segments so that    *)
+(* the places diagnostics point at can be located in it:                    *)
+(*   [t |-> code points, r |-> n]  n >= 0: a line number a branch refers to *)
+(*   [t, r |-> -1, w |-> "while" / "wend"]  the keyword of a WHILE or WEND  *)
+(***************************************************************************)
+Txt(cp) == IF cp = <<>> THEN <<>> ELSE <<[t |-> cp, r |-> -1, w |-> ""]>>
+Ref(n) == <<[t |-> DigitsOf(n), r |-> n, w |-> ""]>>
+KwW(cp, w) == <<[t |-> cp, r |-> -1, w |-> w]>>
+RECURSIVE Flat(_, _)
+Flat(segs, i) == IF i > Len(segs) THEN <<>> ELSE segs[i].t \o Flat(segs, i + 1)
+
+RECURSIVE RefNums(_, _)
+RefNums(ns, i) == IF i > Len(ns) THEN <<>>
+                  ELSE Ref(ns[i]) \o (IF i < Len(ns) THEN Txt(<<44>>) ELSE <<>>) \o RefNums(ns, i + 1)
 RECURSIVE ShowNames(_, _)
 ShowNames(vs, i) == IF i > Len(vs) THEN <<>>
                     ELSE NameCp(vs[i]) \o (IF i < Len(vs) THEN <<44>> ELSE <<>>) \o ShowNames(vs, i + 1)
@@ -103,7 +115,7 @@ RangeText(s) ==
 
 IsSingleGoto(ss) == Len(ss) = 1 /\ ss[1].k = "goto"
 
-RECURSIVE ShowStmt(_), ShowStmts(_, _), ShowPrintItems(_, _, _, _)
+RECURSIVE SegStmt(_), SegStmts(_, _), ShowPrintItems(_, _, _, _)
 \* items of a PRINT: a blank separates the keyword from a first expression and two adjacent
 \* expressions; separators are written as they are
 ShowPrintItems(items, i, prevExpr, kwPrint) ==
@@ -112,56 +124,64 @@ ShowPrintItems(items, i, prevExpr, kwPrint) ==
        THEN (IF items[i].sep = "," THEN <<44>> ELSE <<59>>) \o ShowPrintItems(items, i + 1, FALSE, kwPrint)
        ELSE (IF (i = 1 /\ kwPrint) \/ prevExpr THEN SP ELSE <<>>) \o ShowExpr(items[i].e)
             \o ShowPrintItems(items, i + 1, TRUE, kwPrint)
-ShowStmt(s) ==
-  CASE s.k = "let" -> (IF s.kw THEN T_LET \o SP ELSE <<>>) \o ShowExpr(s.v) \o <<61>> \o ShowExpr(s.e)
-    [] s.k = "print" -> (IF s.q THEN <<63>> ELSE T_PRINT) \o ShowPrintItems(s.items, 1, FALSE, ~s.q)
-    [] s.k = "goto" -> T_GOTO \o SP \o DigitsOf(s.n)
-    [] s.k = "gosub" -> T_GOSUB \o SP \o DigitsOf(s.n)
-    [] s.k = "return" -> T_RETURN
-    [] s.k = "ongoto" -> T_ON \o SP \o ShowExpr(s.e) \o SP \o T_GOTO \o SP \o ShowNums(s.ns, 1)
-    [] s.k = "ongosub" -> T_ON \o SP \o ShowExpr(s.e) \o SP \o T_GOSUB \o SP \o ShowNums(s.ns, 1)
+SegStmt(s) ==
+  CASE s.k = "let" -> Txt((IF s.kw THEN T_LET \o SP ELSE <<>>) \o ShowExpr(s.v) \o <<61>> \o ShowExpr(s.e))
+    [] s.k = "print" -> Txt((IF s.q THEN <<63>> ELSE T_PRINT) \o ShowPrintItems(s.items, 1, FALSE, ~s.q))
+    [] s.k = "goto" -> Txt(T_GOTO \o SP) \o Ref(s.n)
+    [] s.k = "gosub" -> Txt(T_GOSUB \o SP) \o Ref(s.n)
+    [] s.k = "return" -> Txt(T_RETURN)
+    [] s.k = "ongoto" -> Txt(T_ON \o SP \o ShowExpr(s.e) \o SP \o T_GOTO \o SP) \o RefNums(s.ns, 1)
+    [] s.k = "ongosub" -> Txt(T_ON \o SP \o ShowExpr(s.e) \o SP \o T_GOSUB \o SP) \o RefNums(s.ns, 1)
     [] s.k = "if" ->
-         T_IF \o SP \o ShowExpr(s.c) \o SP \o T_THEN \o SP
-         \o (IF s.short /\ IsSingleGoto(s.th) THEN DigitsOf(s.th[1].n) ELSE ShowStmts(s.th, 1))
+         Txt(T_IF \o SP \o ShowExpr(s.c) \o SP \o T_THEN \o SP)
+         \o (IF s.short /\ IsSingleGoto(s.th) THEN Ref(s.th[1].n) ELSE SegStmts(s.th, 1))
          \o (IF s.el = <<>> THEN <<>>
-             ELSE SP \o T_ELSE \o SP
-                  \o (IF s.short /\ IsSingleGoto(s.el) THEN DigitsOf(s.el[1].n) ELSE ShowStmts(s.el, 1)))
-    [] s.k = "for" -> T_FOR \o SP \o ShowExpr(s.v) \o <<61>> \o ShowExpr(s.a) \o SP \o T_TO \o SP \o ShowExpr(s.b)
-                      \o (IF s.nostep THEN <<>> ELSE SP \o T_STEP \o SP \o ShowExpr(s.c))
-    [] s.k = "next" -> T_NEXT \o (IF s.vs = <<>> THEN <<>> ELSE SP \o ShowList(s.vs, 1))
-    [] s.k = "while" -> T_WHILE \o SP \o ShowExpr(s.c)
-    [] s.k = "wend" -> T_WEND
-    [] s.k = "end" -> T_END
-    [] s.k = "stop" -> T_STOP
-    [] s.k = "rem" -> T_REM \o (IF FreeCp(s) = <<>> THEN <<>> ELSE SP \o FreeCp(s))
-    [] s.k = "data" -> T_DATA \o SP \o ShowLits(s.vals, 1)
-    [] s.k = "read" -> T_READ \o SP \o ShowList(s.vs, 1)
-    [] s.k = "restore" -> T_RESTORE \o (IF s.n < 0 THEN <<>> ELSE SP \o DigitsOf(s.n))
-    [] s.k = "dim" -> T_DIM \o SP \o ShowList(s.vs, 1)
-    [] s.k = "erase" -> T_ERASE \o SP \o ShowNames(s.vs, 1)
-    [] s.k = "def" -> T_DEF \o SP \o StrCp(s.id) \o <<40>> \o ShowNames(s.ps, 1) \o <<41, 61>> \o ShowExpr(s.e)
+             ELSE Txt(SP \o T_ELSE \o SP)
+                  \o (IF s.short /\ IsSingleGoto(s.el) THEN Ref(s.el[1].n) ELSE SegStmts(s.el, 1)))
+    [] s.k = "for" -> Txt(T_FOR \o SP \o ShowExpr(s.v) \o <<61>> \o ShowExpr(s.a) \o SP \o T_TO \o SP \o ShowExpr(s.b)
+                      \o (IF s.nostep THEN <<>> ELSE SP \o T_STEP \o SP \o ShowExpr(s.c)))
+    [] s.k = "next" -> Txt(T_NEXT \o (IF s.vs = <<>> THEN <<>> ELSE SP \o ShowList(s.vs, 1)))
+    [] s.k = "while" -> KwW(T_WHILE, "while") \o Txt(SP \o ShowExpr(s.c))
+    [] s.k = "wend" -> KwW(T_WEND, "wend")
+    [] s.k = "end" -> Txt(T_END)
+    [] s.k = "stop" -> Txt(T_STOP)
+    [] s.k = "rem" -> Txt(T_REM \o (IF FreeCp(s) = <<>> THEN <<>> ELSE SP \o FreeCp(s)))
+    [] s.k = "data" -> Txt(T_DATA \o SP \o ShowLits(s.vals, 1))
+    [] s.k = "read" -> Txt(T_READ \o SP \o ShowList(s.vs, 1))
+    [] s.k = "restore" -> Txt(T_RESTORE) \o (IF s.n < 0 THEN <<>> ELSE Txt(SP) \o Ref(s.n))
+    [] s.k = "dim" -> Txt(T_DIM \o SP \o ShowList(s.vs, 1))
+    [] s.k = "erase" -> Txt(T_ERASE \o SP \o ShowNames(s.vs, 1))
+    [] s.k = "def" -> Txt(T_DEF \o SP \o StrCp(s.id) \o <<40>> \o ShowNames(s.ps, 1) \o <<41, 61>> \o ShowExpr(s.e))
     [] s.k = "deftype" ->
-         (CASE s.t = "I" -> T_DEFINT [] s.t = "S" -> T_DEFSNG [] s.t = "D" -> T_DEFDBL [] OTHER -> T_DEFSTR)
-         \o SP \o <<CharCode[s.a]>> \o (IF s.a = s.b THEN <<>> ELSE <<45, CharCode[s.b]>>)
-    [] s.k = "swap" -> T_SWAP \o SP \o ShowExpr(s.v1) \o <<44>> \o ShowExpr(s.v2)
-    [] s.k = "mid" -> T_MID \o <<40>> \o ShowExpr(s.v) \o <<44>> \o ShowExpr(s.p)
-                      \o (IF s.non THEN <<>> ELSE <<44>> \o ShowExpr(s.n)) \o <<41, 61>> \o ShowExpr(s.e)
-    [] s.k = "input" -> T_INPUT \o (IF s.caps THEN SP ELSE <<44>>)
-                        \o (IF s.hasp THEN <<34>> \o s.prompt \o <<34, 59>> ELSE <<>>) \o ShowList(s.vs, 1)
-    [] s.k = "clear" -> T_CLEAR
-    [] s.k = "run" -> T_RUN \o (IF s.n < 0 THEN <<>> ELSE SP \o DigitsOf(s.n))
-    [] s.k = "cont" -> T_CONT
-    [] s.k = "tron" -> T_TRON
-    [] s.k = "troff" -> T_TROFF
-    [] s.k = "new" -> T_NEW
-    [] s.k = "cls" -> T_CLS
-    [] s.k = "delete" -> T_DELETE \o RangeText(s)
-    [] s.k = "list" -> T_LIST \o RangeText(s)
-    [] s.k = "renum" -> T_RENUM \o (IF s.args = "" THEN <<>> ELSE SP \o StrCp(s.args))
-    [] s.k = "bad" -> FreeCp(s)
-ShowStmts(ss, i) == IF i > Len(ss) THEN <<>>
-                    ELSE ShowStmt(ss[i]) \o (IF i < Len(ss) THEN <<58>> ELSE <<>>) \o ShowStmts(ss, i + 1)
+         Txt((CASE s.t = "I" -> T_DEFINT [] s.t = "S" -> T_DEFSNG [] s.t = "D" -> T_DEFDBL [] OTHER -> T_DEFSTR)
+             \o SP \o <<CharCode[s.a]>> \o (IF s.a = s.b THEN <<>> ELSE <<45, CharCode[s.b]>>))
+    [] s.k = "swap" -> Txt(T_SWAP \o SP \o ShowExpr(s.v1) \o <<44>> \o ShowExpr(s.v2))
+    [] s.k = "mid" -> Txt(T_MID \o <<40>> \o ShowExpr(s.v) \o <<44>> \o ShowExpr(s.p)
+                      \o (IF s.non THEN <<>> ELSE <<44>> \o ShowExpr(s.n)) \o <<41, 61>> \o ShowExpr(s.e))
+    [] s.k = "input" -> Txt(T_INPUT \o (IF s.caps THEN SP ELSE <<44>>)
+                        \o (IF s.hasp THEN <<34>> \o s.prompt \o <<34, 59>> ELSE <<>>) \o ShowList(s.vs, 1))
+    [] s.k = "clear" -> Txt(T_CLEAR)
+    [] s.k = "run" -> Txt(T_RUN) \o (IF s.n < 0 THEN <<>> ELSE Txt(SP) \o Ref(s.n))
+    [] s.k = "cont" -> Txt(T_CONT)
+    [] s.k = "tron" -> Txt(T_TRON)
+    [] s.k = "troff" -> Txt(T_TROFF)
+    [] s.k = "new" -> Txt(T_NEW)
+    [] s.k = "cls" -> Txt(T_CLS)
+    [] s.k = "delete" -> Txt(T_DELETE \o RangeText(s))
+    [] s.k = "list" -> Txt(T_LIST \o RangeText(s))
+    [] s.k = "renum" -> Txt(T_RENUM \o (IF s.args = "" THEN <<>> ELSE SP \o StrCp(s.args)))
+    [] s.k = "bad" -> Txt(FreeCp(s))
+SegStmts(ss, i) == IF i > Len(ss) THEN <<>>
+                   ELSE SegStmt(ss[i]) \o (IF i < Len(ss) THEN Txt(<<58>>) ELSE <<>>) \o SegStmts(ss, i + 1)
 
-\* the listed line: number, one blank, statements separated by colons
-ShowLine(n, stmts) == DigitsOf(n) \o SP \o ShowStmts(stmts, 1)
+ShowStmt(s) == Flat(SegStmt(s), 1)
+ShowStmts(ss, i) == Flat(SegStmts(ss, i), 1)
+
+\* the listed line: number, one blank, statements separated by colons (ln = -1: a direct line)
+SegLine(n, stmts) == (IF n >= 0 THEN Txt(DigitsOf(n) \o SP) ELSE <<>>) \o SegStmts(stmts, 1)
+ShowLine(n, stmts) == Flat(SegLine(n, stmts), 1)
+\* the column range [c0, c1) of segment i in the text
+RECURSIVE SegStart(_, _)
+SegStart(segs, i) == IF i = 1 THEN 0 ELSE SegStart(segs, i - 1) + Len(segs[i - 1].t)
+SegRange(segs, i) == <<SegStart(segs, i), SegStart(segs, i) + Len(segs[i].t)>>
 =============================================================================
